@@ -422,7 +422,7 @@ def w_c02(seed):
 C08_INPUTS = ["30 mpg * 2 gallon", "1 swimmingpool / 1 footballfield", "sqrt(1 kg) * planck_mass", "print(30 mpg * 10 L)", '"{planck_length * sqrt(1 m)}"', "mod(0, 7 m)", "atan2(0, 1 m)", "mod(7 m, 0)", "mod(5 m, inf)", "atan2(1 m, inf)", "mod(7 m, 2 cm)", "atan2(1 m, 1 cm)", "mod(NaN, 1 m)", "atan2(NaN, 2 s)",
               "1 / 0", "(-1)!", "2.5!", "mod(7, 0)", "sqrt(-1)", "parse(\"\")" if False else "1 m + 2 s", "[] |> head", "element_at(5, [1])", "str_slice(5, 2, \"ab\")",
               "unit vx_foo: Length\nsin(vx_foo/m)", "unit vx_foo: Length\ngamma(vx_foo/m)", "unit vx_foo: Length\n(vx_foo/m)!", "unit vx_foo: Length\nround(vx_foo/m)", '"abc\\', '"x = {1}\\', 'let vx_p: Scalar = parse("\\"1\\\\")', ".5e", "1_", "1.5.2", "0x", ".", "..", "1e+", 
-              "m^(-(-2^126*2))", "(2 m)^(-(2^127))", "1e400", "2^1e10", "(2 m)^(1/0)", "10^400 m -> cm", "unit_of(0)", "value_of(inf m)"]
+              "m^(-(-2^126*2))", "(2 m)^(-(2^127))", "meter^(0^-1)", "(2 second)^((1 - 1)^-2)", "meter^(2^-1)", "1e400", "2^1e10", "(2 m)^(1/0)", "10^400 m -> cm", "unit_of(0)", "value_of(inf m)"]
 
 
 def w_c08(seed):
